@@ -136,7 +136,7 @@ LowerClipped(clip, call) ==
     [] call.m = "fill_contiguous" ->
          LET inter == Intersection(clip, call.area) IN
          IF inter = call.area THEN call
-         ELSE LET crop == Shift(inter, <<-call.area[1], -call.area[2]>>) IN
+         ELSE LET crop == <<inter[1] - call.area[1], inter[2] - call.area[2], inter[3], inter[4]>> IN   \* clipped.rs:59 (positions subtracted, D39)
               MkCall("fill_contiguous", inter, -1, CroppedDrain(call.colors, SizeOf(call.area), crop), <<>>)
     [] call.m = "fill_solid" -> MkCall("fill_solid", Intersection(call.area, clip), call.color, <<>>, <<>>)
     [] call.m = "clear" -> MkCall("fill_solid", Intersection(clip, clip), call.color, <<>>, <<>>)   \* default clear
